@@ -197,8 +197,18 @@ func init() {
 		}
 		ft := st.Field(i).Type()
 		off := it.fieldOff(st, i)
+		// reflect's rule: sticky RO is inherited; an unexported field adds sticky RO, unless it is
+		// embedded, in which case only the field itself is RO (its exported fields are not)
+		sticky, embed := rv.ro, false
+		if !st.Field(i).Exported() {
+			if st.Field(i).Embedded() {
+				embed = true
+			} else {
+				sticky = true
+			}
+		}
 		if rv.addr != nil {
-			return rvWrap(&RValue{t: ft, addr: &Ptr{obj: rv.addr.obj, off: rv.addr.off + off}, valid: true, ro: rv.ro || !st.Field(i).Exported()}), stOK
+			return rvWrap(&RValue{t: ft, addr: &Ptr{obj: rv.addr.obj, off: rv.addr.off + off}, valid: true, ro: sticky, ero: embed}), stOK
 		}
 		agg := rv.v.(Agg)
 		var fv Value
@@ -207,7 +217,7 @@ func init() {
 		} else {
 			fv = agg[off]
 		}
-		return rvWrap(&RValue{t: ft, v: fv, valid: true, ro: rv.ro || !st.Field(i).Exported()}), stOK
+		return rvWrap(&RValue{t: ft, v: fv, valid: true, ro: sticky, ero: embed}), stOK
 	})
 	reg("(reflect.Value).Len", func(it *Interp, g *G, fr *Frame, args []Value, site ssa.Instruction) (Value, stepResult) {
 		rv := rvOf(args[0])
@@ -328,7 +338,7 @@ func init() {
 	})
 	reg("(reflect.Value).CanSet", func(it *Interp, g *G, fr *Frame, args []Value, site ssa.Instruction) (Value, stepResult) {
 		rv := rvOf(args[0])
-		return it.ts.Bool(rv.valid && rv.addr != nil && !rv.ro), stOK
+		return it.ts.Bool(rv.valid && rv.addr != nil && !rv.ro && !rv.ero), stOK
 	})
 	reg("(reflect.Value).CanAddr", func(it *Interp, g *G, fr *Frame, args []Value, site ssa.Instruction) (Value, stepResult) {
 		rv := rvOf(args[0])
@@ -339,7 +349,7 @@ func init() {
 		if !rv.valid || rv.addr == nil {
 			return it.rvPanic("reflect.Value.Set using unaddressable value")
 		}
-		if rv.ro {
+		if rv.ro || rv.ero {
 			return it.rvPanic("reflect.Value.Set using value obtained using unexported field")
 		}
 		if !x.valid {
@@ -383,7 +393,7 @@ func init() {
 		if !rv.valid {
 			return it.rvPanic("reflect.Value.Interface of zero Value")
 		}
-		if rv.ro {
+		if rv.ro || rv.ero {
 			return it.rvPanic("reflect.Value.Interface: cannot return value obtained from unexported field or method")
 		}
 		v := it.rvGet(rv)
